@@ -257,6 +257,7 @@ void ds_sub_wsd(void) {
       vp_sig(vp_mix(((uint64_t)shape << 8) | (uint64_t)thieves,
                     (vp_get(c_pop_abort) ? 1 : 0) | (vp_get(c_steal_abort) ? 2 : 0) | ((max_size_seen > 255) ? 4 : 0)));
       vp_progress();
+      vp_case();
     }
     vp_add(c_rounds, 1);
     vp_max(c_maxsize, max_size_seen);
